@@ -43,8 +43,8 @@ Fixpoint upd_nth {A} (i : nat) (x : A) (l : list A) : list A :=
 Definition node (s : ppst) (i : N) : fstate := nth (N.to_nat i) (pp_nodes s) (finit true []).
 Definition set_node (s : ppst) (i : N) (f : fstate) (live : list N) : ppst :=
   {| pp_nodes := upd_nth (N.to_nat i) f (pp_nodes s); pp_hv := pp_hv s; pp_rank := pp_rank s; pp_live := live |}.
-Definition held_on (s : ppst) (h : N) : list N :=      (* indices of the nodes that hold something for h *)
-  map fst (filter (fun p => ahas h (f_alloc (snd p))) (combine (map N.of_nat (seq 0 (length (pp_nodes s)))) (pp_nodes s))).
+Definition held_any (s : ppst) (h : N) : bool :=        (* some node holds something for h *)
+  existsb (fun f => ahas h (f_alloc f)) (pp_nodes s).
 Definition rm (h : N) (l : list N) : list N := filter (fun x => negb (x =? h)) l.
 
 Definition pstep (s : ppst) (o : pop) : ppst * out * list N :=
@@ -52,7 +52,7 @@ Definition pstep (s : ppst) (o : pop) : ppst * out * list N :=
   | PAlloc n h =>
       let w := healthy_owner s n h in
       let '(f', r, _) := FreeList.step (node s w) (Alloc h) in
-      let elsewhere := existsb (fun i => negb (i =? w)) (held_on s h) in
+      let elsewhere := held_any (set_node s w (finit true []) (pp_live s)) h in   (* on a node other than w *)
       match r with
       | OUnit u => (set_node s w f' (h :: rm h (pp_live s)), OUnit u, if elsewhere then [509] else [])
       | _ => (s, OErr 1, [])
@@ -61,7 +61,7 @@ Definition pstep (s : ppst) (o : pop) : ppst * out * list N :=
       let w := healthy_owner s n h in
       let '(f', _, _) := FreeList.step (node s w) (Release h) in
       let s' := set_node s w f' (rm h (pp_live s)) in
-      (s', OOk, match held_on s' h with [] => [] | _ => [508] end)
+      (s', OOk, if held_any s' h then [508] else [])
   | PGet n h =>
       if static_owner s h =? n then
         match aget h (f_alloc (node s n)) with Some u => (s, OUnit u, []) | None => (s, ONone, []) end
